@@ -103,6 +103,7 @@ def run_shape(shape, tier):
         env = Env(symbolic=True)
         sqlprogs.setup_leaves(ctx, env, prog, n)
         templates.declare(ctx, env, shape["params"], shape["cons"])
+        sqlprogs.history(env, prog)
         try:
             rel = build(prog, env)
         except RelationalAlgebraError as e:
@@ -135,6 +136,9 @@ def run_shape(shape, tier):
                 info["outside"].append(templates.bind_concrete(shape["params"], model_values(ctx.solver.model(), ctx.vars)))
             raise Skip(f"outside SQL model: {e}")
         except sqlmodel.SqlInvalid as e:
+            if "no such table" in str(e):
+                # not a translation of this tree at all: the statement reads a table that is not one of the tree's leaves
+                return [("the SQL reads only the leaf tables of the tree", False, {"why": str(e), "sql": str(ex)[:200]})]
             raise Skip(f"invalid SQL: {e} (see C08)")
         info.setdefault("sql", str(ex)[:300])
         if not got.ordered:
@@ -217,6 +221,8 @@ def concrete_check(prog, rows, bind):
         except Exception as e:  # noqa: BLE001
             if must_refuse and "Cannot persist materialization" in str(e):
                 return True, "buried-sort-accepted", "materialization of a sorted, unsliced relation was accepted"
+            if "no such table" in str(e):
+                return True, "sql-reads-foreign-table", str(e)[:160]
             return False, f"raises:{type(e).__name__}", str(e)[:120]
         if must_refuse:
             return True, "buried-sort-accepted", {"tree": str(rel)}
